@@ -23,6 +23,12 @@ def one(path):
         ctx = Ctx(Program(overrides=ov))
         rep = Report('X')
         P = ctx.prog.func
+        if os.environ.get('TRIAL_SET') == '3':
+            from gtverif.rules import small_models3 as m3
+            for name in sorted(n for n in dir(m3) if n.startswith('check_')):
+                getattr(m3, name)(ctx, rep)
+            want = ('VIOLATES', 'UNDECIDED') if '-u' in sys.argv else ('VIOLATES',)
+            return path, ['{} {} {}: {}'.format(i.verdict, i.rule, i.where, i.reason[:200]) for i in rep.instances if i.verdict in want]
         m.check_remove_unreachable(ctx, rep, P('dfa_algorithms.dfa_remove_unreachable_states'))
         for s in ('dfa_minimize', 'dfa_quotient', 'dfa_hopfcroft'):
             m.check_minimiser(ctx, rep, P('dfa_algorithms.' + s))
